@@ -1468,4 +1468,71 @@ theorem syncUpstreamCluster_among_others (env : Env) (henv : EnvOK env) (others 
         apply this
         rw [hks, henv.lower_idem]
 
+/-! ### the limiter server after a take-over -/
+
+theorem alGet_globalEntries_none (l : List Schema) (x : Str) (h : x ∉ l.map (·.name)) : alGet (globalEntries l) x = none := by
+  induction l with
+  | nil => rfl
+  | cons a l ih =>
+    simp at h
+    have hne : ¬ (a.name = x) := fun e => h.1 e.symm
+    have ih' := ih (by simpa using h.2)
+    unfold globalEntries at ih' ⊢
+    simp only [List.filterMap_cons]
+    cases hg : expectedGlobal a with
+    | none => simpa [hg] using ih'
+    | some g => simp [alGet, hne]; exact ih'
+
+theorem globalEntries_append (a b : List Schema) : globalEntries (a ++ b) = globalEntries a ++ globalEntries b := by
+  simp [globalEntries, List.filterMap_append]
+
+/-- one schema of a valid object against a store that has no limiter of that name yet -/
+theorem storeSyncOne_fresh (fcs : List (Str × GlobalFC)) (s : Schema) (h : schemaOK s = true)
+    (hg : alGet fcs s.name = none) : storeSyncOne fcs s = .ok (fcs ++ globalEntries [s]) := by
+  obtain ⟨name, strategy, exempt, m, tb, gm, gtb⟩ := s
+  cases exempt <;> cases m <;> cases tb <;> cases gm <;> cases gtb <;>
+    simp [schemaOK, shapeOf] at h <;>
+    simp [storeSyncOne, newGlobalFlowControl, deref, bind, Except.bind, pure, Except.pure, globalEntries, expectedGlobal,
+      shapeOf] <;>
+    simp_all [alSet_of_none]
+
+theorem foldStore_fresh (rest : List Schema) : ∀ (pre : List Schema), namesOK (pre ++ rest) = true →
+    (∀ s ∈ rest, schemaOK s = true) →
+    foldM' storeSyncOne (globalEntries pre) rest = .ok (globalEntries (pre ++ rest)) := by
+  induction rest with
+  | nil => intro pre _ _; simp [foldM', pure, Except.pure]
+  | cons s rest ih =>
+    intro pre hn hs
+    obtain ⟨_, h2⟩ := namesOK_append_cons pre s rest hn
+    have step := storeSyncOne_fresh (globalEntries pre) s (hs s (by simp)) (alGet_globalEntries_none pre s.name h2)
+    rw [← globalEntries_append] at step
+    simp only [foldM', step, bind, Except.bind]
+    have := ih (pre ++ [s]) (by simpa using hn) (fun t ht => hs t (by simp [ht]))
+    simpa using this
+
+/-- after a take-over (or on a fresh store) the handler re-creates every global limiter of a valid object, with the
+    configured kind and numbers, whatever conditions were restored from the API -/
+theorem handler_after_takeover (env : Env) (known : List Known) (c : Cluster) (hv : valid env known c = true)
+    (persist : Bool) (u : Upstream) :
+    ∃ u', upstreamConditionHandler (newTerm persist u) c = .ok u' ∧ u'.flowControls = globalEntries c.schemas := by
+  have hv' := hv
+  simp only [valid, usable, classes, Bool.and_eq_true, decide_eq_true_eq, List.all_eq_true] at hv'
+  have hn : namesOK c.schemas = true := hv'.1.1.1.1.2.1.2
+  have hs : ∀ s ∈ c.schemas, schemaOK s = true := hv'.1.1.1.1.2.1.1.2
+  obtain ⟨l, hl, _⟩ := mapM'_ok (upstreamStateItem (newTerm persist u).state.statuses) c.schemas
+    (fun s _ => by obtain ⟨r, hr, _⟩ := upstreamStateItem_ok (newTerm persist u).state.statuses s; exact ⟨r, hr⟩)
+  have hfc : (newTerm persist u).flowControls = [] ∧ (newTerm persist u).currentSpec = [] := by
+    unfold newTerm; cases persist <;> simp [emptyUpstream]
+  have hfold := foldStore_fresh c.schemas [] (by simpa using hn) hs
+  simp only [List.nil_append] at hfold
+  have hge : globalEntries ([] : List Schema) = [] := rfl
+  rw [hge] at hfold
+  simp only [upstreamConditionHandler, updateUpstreamStateCondition, hl, bind, Except.bind, pure, Except.pure,
+    storeSyncFlowControls, hfc.1, hfc.2]
+  by_cases he : ([] : List Schema) = c.schemas
+  · simp only [← he, if_true]
+    exact ⟨_, rfl, by simp; rfl⟩
+  · simp only [he, if_false, hfold, List.map_nil, List.filter_nil, List.foldl_nil]
+    exact ⟨_, rfl, rfl⟩
+
 end KG.Lemmas.Validate
